@@ -91,6 +91,12 @@ func VerifC08Verdict() {
 		if got != "ok" {
 			verifReach("refused")
 			verifAssert(h.observeRepoN(h.repo, nBefore) == before, "refusal-changed-observable-state")
+			if !accepted[idx] {
+				// the refused header itself stays unknown to every lookup
+				_, _, cerr := h.repo.CheckHeader(h.ctx, h.hash[idx])
+				_, _, _, gerr := h.repo.GetHeader(h.ctx, h.hash[idx])
+				verifAssert(h.repo.HashHeight(h.hash[idx]) == -1 && cerr != nil && gerr != nil, "refused-header-known-to-lookups")
+			}
 			verifAssert(sub.drain("refused:") == 0, "refusal-announced-headers")
 			if err := h.repo.Save(h.ctx); err != nil {
 				verifAssert(false, "save-returns-error")
